@@ -17,14 +17,14 @@ CFG = dict(
                    "(C17_unchecked_refuted {0,0}; C17_alloc_uncapped_refuted 8 bytes -> 96 GiB); C17_alloc_s2_refuted is the "
                    "known finding (s2.Decode allocates the announced length). Model tied to the Go code by differential "
                    "execution on mutated encodings under recover(), an allocation ceiling and a timeout.",
-        level_note="PARTIAL by design for allocation: the bound is a theorem about the model's meter (charging conventions in "
+        level_note="encoding/json and net/http are not modelled: the json.Unmarshal and client-call batches are oracle-only (the model answers the constant observation \"returned\"); Hex.UnmarshalJSON itself is modelled and proved. PARTIAL by design for allocation: the bound is a theorem about the model's meter (charging conventions in "
                    "lib/GoSlice.v), tied to the real allocator only through the harness ceiling 64*len+1MiB; Receive's "
                    "allocation is not bounded (s2 header, known finding; store contents). Receive is modelled over abstract "
                    "hash / s2 / block-index-sum functions tabulated by the harness (its no-panic and closure properties are "
                    "theorems for every such function; dprof profiling and IndexBlock are not modelled beyond the shape checks "
                    "IndexTable performs before calling them). Well-formedness (bytes < 256) is a "
                    "premise of the robustness theorems.",
-        rule="persistence readers: stored commit/table/table-index/profile bytes and s2-compressed block / block-index values through the same mutation families (for the compressed ones both the compressed bytes and the compression of mutated plain bytes), missing key, empty value; Receive of every valid world again with the n-th Store.Set failing for every n, every key prefix failing, the n-th Store.Get failing for every n, judged by the closedness oracle; s2 headers announcing > 256 MiB are classified from s2.DecodedLen without running, except one fixed witness per class in corpus/C17; fixed witnesses of the repaired defects incl. counts 256/257/1024/1025/2^23 for both decoder modes; every cut 0..len of 4 valid commits (0..3 parents) and 4 valid tables with the oracle rule that only a complete encoding may be accepted; Receive: 12 (quick) / 150 (thorough) consistent worlds (blocks, tables "
+        rule="JSON replies of a remote: payload.Hex.UnmarshalJSON on quoted strings of every length 0..70, non-strings and non-hex strings (modelled); json.Unmarshal into the 12 reply types the client decodes and 13 real client calls (GetRefs, GetHead, GetCommits, GetCommit, GetTable, profiles, Diff, transactions, PostUploadPack, a fetch negotiation, a push negotiation) against an httptest server, on reply templates with each value replaced by 27 hostile alternatives (null, numbers, arrays, objects, short/long/odd/non-hex strings, overflowing numbers), truncated at every offset, deep nesting, huge arrays, and error statuses 400/401/404/500 with JSON bodies (oracle only: no panic, bounded allocation, returns); Receive of tables whose primary-key indices sit at every boundary of the column count (n-1, n, n+1, 2^31, 2^32-1, duplicates, mixed) over well-formed blocks; persistence readers: stored commit/table/table-index/profile bytes and s2-compressed block / block-index values through the same mutation families (for the compressed ones both the compressed bytes and the compression of mutated plain bytes), missing key, empty value; Receive of every valid world again with the n-th Store.Set failing for every n, every key prefix failing, the n-th Store.Get failing for every n, judged by the closedness oracle; s2 headers announcing > 256 MiB are classified from s2.DecodedLen without running, except one fixed witness per class in corpus/C17; fixed witnesses of the repaired defects incl. counts 256/257/1024/1025/2^23 for both decoder modes; every cut 0..len of 4 valid commits (0..3 parents) and 4 valid tables with the oracle rule that only a complete encoding may be accepted; Receive: 12 (quick) / 150 (thorough) consistent worlds (blocks, tables "
              "with correct index sums, commit chain) sent valid and with one object dropped / moved / bit-flipped / truncated / "
              "retyped / replaced by an invalid block / duplicated / interleaved with a type-0 object, plus raw truncation and "
              "bit flips of the stream; decoders: per entry point (21 incl. reuse-mode decoders) 2 (quick) / 8 (thorough) valid encodings written by the real "
